@@ -40,11 +40,27 @@ DXdt(K, nf, rate, c) == [i \in 1..K |-> RAdd(RSub(nf[i], nf[i + 1]), IF i = c TH
 
 (* correctdXdtEuler: first the faces 1..K against the class to their right (dissolution),
    then the faces 2..K+1 against the class to their left (growth), on the updated array *)
-Correct(K, nf, n, dt) ==
+CorrectPerFace(K, nf, n, dt) ==
     LET a == [j \in 1..(K + 1) |->
                  IF j <= K /\ RLt(RMul(nf[j], dt), RNeg(n[j])) THEN RDiv(RNeg(n[j]), dt) ELSE nf[j]]
     IN  [j \in 1..(K + 1) |->
                  IF j >= 2 /\ RLt(n[j - 1], RMul(a[j], dt)) THEN RDiv(n[j - 1], dt) ELSE a[j]]
+(* ... then the classes that lose particles through BOTH faces (the class that straddles the critical radius):
+   when the two losses together exceed what the class holds, both fluxes are scaled down to its content.
+   A face carries an outflow of at most one class (upwinding), so the scalings do not interfere. *)
+LossL(c, i, dt) == IF RLt(c[i], RZero) THEN RMul(RNeg(c[i]), dt) ELSE RZero
+LossR(c, i, dt) == IF RLt(RZero, c[i + 1]) THEN RMul(c[i + 1], dt) ELSE RZero
+Both(c, n, i, dt) == /\ RLt(c[i], RZero) /\ RLt(RZero, c[i + 1]) /\ RLt(n[i], RAdd(LossL(c, i, dt), LossR(c, i, dt)))
+Scale(c, n, i, dt) == RDiv(n[i], RAdd(LossL(c, i, dt), LossR(c, i, dt)))
+CorrectTotal(K, c, n, dt) ==
+    [j \in 1..(K + 1) |->
+        IF j <= K /\ Both(c, n, j, dt) THEN RMul(c[j], Scale(c, n, j, dt))                    \* left face of class j
+        ELSE IF j >= 2 /\ Both(c, n, j - 1, dt) THEN RMul(c[j], Scale(c, n, j - 1, dt))       \* right face of class j-1
+        ELSE c[j]]
+(* CorrMode = "perface": as built before the repair (known_findings.json, C02 density created by clipping a negative class) *)
+CorrectM(K, nf, n, dt, mode) == IF mode = "perface" THEN CorrectPerFace(K, nf, n, dt)
+                                ELSE CorrectTotal(K, CorrectPerFace(K, nf, n, dt), n, dt)
+Correct(K, nf, n, dt) == CorrectM(K, nf, n, dt, "total")
 
 (* getDTEuler(currDT, growth, dissolutionIndex(0-based d), ratio): left faces of populated classes
    with 0-based index >= d, i.e. 1-based class i >= d+1 *)
@@ -92,6 +108,11 @@ NucleationClassOK(K, b, n, g, rate, r, mode) ==
 FaceLimit(K, c, n, dt) == \A j \in 1..(K + 1) :
     /\ (j <= K => RLe(RMul(RNeg(c[j]), dt), n[j]))
     /\ (j >= 2 => RLe(RMul(c[j], dt), n[j - 1]))
+
+(* beyond the stated property (docstring of correctdXdtEuler: "the total number of particles leaving a bin should be less
+   than or equal to the number of particles in the bin"): with non-negative populations and a non-negative nucleation
+   term NO class becomes negative after the correction, whatever the step *)
+TotalLimit(K, n, dxc, dt) == \A i \in 1..K : ~RLt(RAdd(n[i], RMul(dxc[i], dt)), RZero)
 
 (* a class whose two faces obey |g| dt <= ratio * dR (ratio <= 1/2) does not become negative *)
 Obeys(b, g, i, dt, ratio) == /\ RLe(RMul(RAbs(g[i]), dt), RMul(ratio, DR(b, i)))
